@@ -114,6 +114,7 @@ class Sim:
         self.fsfaults = [dict(f, seen=0, fired=0) for f in plan.get('fsfaults', [])]
         self.sandboxes = []  # created by resolver / mkdtemp
         self.resolver_fault = plan.get('resolver_fault')
+        self.sandbox_requests = 0
 
     def ev(self, ev_kind: str, /, **fields) -> int:
         seq = len(self.events)
